@@ -56,6 +56,9 @@ func c12Bytes(r *rand.Rand, cl bool) []byte {
 	if fl&0x10 != 0 {
 		if cl {
 			n := 1 + r.Intn(4)
+			if r.Intn(12) == 0 {
+				n = 20 + r.Intn(200) // a very long chain (the whole EBP may be 257 bytes)
+			}
 			for k := 0; k < n; k++ {
 				id := byte(r.Intn(128))
 				if r.Intn(3) == 0 {
@@ -91,8 +94,15 @@ func c12Bytes(r *rand.Rand, cl bool) []byte {
 		body = append(body, byte(r.Intn(256)))
 	}
 	tail := make([]byte, []int{0, 0, 1, 2, 5}[r.Intn(5)])
+	if r.Intn(10) == 0 && len(body) < 250 {
+		// fill up to a data_field_length of 253, 254 or 255 (the largest the length byte can say)
+		tail = make([]byte, []int{253, 254, 255, 255}[r.Intn(4)]-len(body))
+	}
 	r.Read(tail)
 	body = append(body, tail...)
+	if len(body) > 255 { // does not fit the length byte: draw another one
+		return c12Bytes(r, cl)
+	}
 	tag := byte(0xA9)
 	if cl {
 		tag = 0xDF
